@@ -3,7 +3,7 @@
 # 1. confirms in a scratch worktree that the patch applies, builds, passes the suite, and that demo.sh
 #    passes without and fails with it; 2. applies it to /repo, runs the named checks, reverts /repo.
 set -u
-D=$1; shift
+D=$(cd "$1" && pwd); shift
 export GOFLAGS=-mod=mod GOPROXY=off GOSUMDB=off GOTOOLCHAIN=local
 W=$(mktemp -d /tmp/seedwt.XXXXXX); rmdir $W
 git -C /repo worktree add -q --detach $W HEAD || exit 2
